@@ -172,6 +172,20 @@ def check_routing(world, op, dest):
           if fp != real_pref:
             ndiff_fresh += 1
             classify_history_dependence(world, ref, fresh, pos, key, real_pref, fp)
+          # the relay's answer for this key against a freshly started relay's: the published
+          # replica selection applied to the fresh ring's preference order (where the rings
+          # agree; where they do not, the ring clauses above have already spoken)
+          if fp == real_pref and type(inner).__name__ == 'ConsistentHashingRouter':
+            want = ref_select(fp, inner.replication_factor, inner.diverse_replicas, port_of)
+            try:
+              got = list(inner.getDestinations(key))
+            except Exception:
+              got = None        # reported by the C05 clause
+            if got is not None and got != want:
+              ctx.violation('C06', 'router-differs-from-fresh-relay', ht,
+                            'position %d (key %r): after this membership history the relay routes to '
+                            '%r; a freshly started relay with the same live destinations %r routes to '
+                            '%r' % (pos, key, got, sorted(configured), want))
         if prev is not None and op in ('add', 'remove') and pos in prev:
           n = node_of(dest)
           if op == 'remove':
@@ -194,6 +208,22 @@ def check_routing(world, op, dest):
     check_rules_sweep(world, configured)
   if method in ('aggregated-consistent-hashing', 'fast-aggregated-hashing'):
     check_aggregated_sweep(world, configured)
+
+
+def ref_select(pref, rf, diverse, port_of):
+  """Published replica selection: the first REPLICATION_FACTOR nodes of the preference
+  order; with DIVERSE_REPLICAS nodes on an already used server are passed over."""
+  out = []
+  used = set()
+  for node in pref:
+    if len(out) >= rf:
+      break
+    if diverse:
+      if node[0] in used:
+        continue
+      used.add(node[0])
+    out.append(port_of[node])
+  return out
 
 
 def classify_history_dependence(world, ref, fresh, pos, key, real_pref, fresh_pref):
@@ -409,16 +439,26 @@ def ref_agg_match(rule, metric):
 class RefRulesFile(object):
   """Reference view of aggregation-rules.conf: re-read every 10 s when the file has
   been modified (documented: 'any time this file is modified, it will be re-read
-  automatically'); a missing file means no rules."""
+  automatically'); a missing file means no rules.
+
+  Once a re-read has been hit by an injected I/O error the reference no longer says
+  which rule set is in force, only which ones it can be: the one in force before the
+  error or any complete content the file has had since -- never anything else (e.g. the
+  first lines of a file whose reading failed)."""
 
   def __init__(self, path, initial_text):
     self.path = path
     self.rules = parse_agg_rules(initial_text)
     self.mtime = os.path.getmtime(path) if os.path.exists(path) else 0.0
     self.nreloads = 0
+    self.degraded = False
+    self.cands = []
 
-  def tick(self):
+  def tick(self, faulted=False):
     if not os.path.exists(self.path):
+      if self.degraded:
+        self.cands.append([])
+        return
       if self.rules:
         self.nreloads += 1
       self.rules = []
@@ -428,8 +468,16 @@ class RefRulesFile(object):
       return
     self.mtime = m
     with open(self.path, encoding='utf-8') as f:
-      self.rules = parse_agg_rules(f.read())
+      new = parse_agg_rules(f.read())
+    if faulted or self.degraded:
+      self.degraded = True
+      self.cands.append(new)
+    else:
+      self.rules = new
     self.nreloads += 1
+
+  def candidates(self):
+    return [self.rules] + (self.cands if self.degraded else [])
 
 
 def agg_rules_of(world):
@@ -451,21 +499,35 @@ def check_aggregated_key(world, metric, configured):
   except Exception as e:
     world.ctx.violation('C16', 'routing-raises', type(e).__name__, 'getDestinations(%r) raised %r' % (metric, e))
     return
-  aggs = [a for a in (ref_agg_match(r, metric) for r in agg_rules_of(world)) if a is not None]
-  if aggs:
-    world.ctx.sigs.add('aggmatch:%d' % len(aggs))
-    for a in aggs:
-      need = set(inner.getDestinations(a))
-      if not need <= got:
-        world.ctx.violation('C16', 'aggregate-inputs-split', 'aggregated',
-                            'metric %r feeds aggregate %r whose hash destinations are %r, but it is '
-                            'routed to %r' % (metric, a, sorted(need), sorted(got)))
-  else:
-    own = set(inner.getDestinations(metric))
-    if got != own:
-      world.ctx.violation('C16', 'unaggregated-routing-differs', 'aggregated',
-                          'metric %r matches no aggregation rule; routed to %r, its own hash '
-                          'destinations are %r' % (metric, sorted(got), sorted(own)))
+  ref = getattr(world, 'ref_rules_file', None)
+  cands = ref.candidates() if ref is not None else [agg_rules_of(world)]
+  first = None
+  for rules in cands:
+    bad = None
+    aggs = [a for a in (ref_agg_match(r, metric) for r in rules) if a is not None]
+    if aggs:
+      world.ctx.sigs.add('aggmatch:%d' % len(aggs))
+      for a in aggs:
+        need = set(inner.getDestinations(a))
+        if not need <= got:
+          bad = ('aggregate-inputs-split',
+                 'metric %r feeds aggregate %r whose hash destinations are %r, but it is '
+                 'routed to %r' % (metric, a, sorted(need), sorted(got)))
+          break
+    else:
+      own = set(inner.getDestinations(metric))
+      if got != own:
+        bad = ('unaggregated-routing-differs',
+               'metric %r matches no aggregation rule; routed to %r, its own hash '
+               'destinations are %r' % (metric, sorted(got), sorted(own)))
+    if bad is None:
+      first = None
+      break
+    if first is None:
+      first = bad
+  if first is not None:
+    note = '' if len(cands) == 1 else ' (nor does any of the %d rule sets possible after the failed re-read fit)' % len(cands)
+    world.ctx.violation('C16', first[0], 'aggregated', first[1] + note)
   for d in got:
     if d not in configured:
       world.ctx.violation('C16', 'unconfigured-destination', 'aggregated', 'metric %r -> %r' % (metric, d))
